@@ -32,6 +32,12 @@ impl<S, K: Clone + Eq + Hash> QueueInner<S, K> {
     pub fn remove(&mut self, k: &K) {
         self.streams.remove(k);
     }
+
+    /// Drops every registered stream (the read halves of all peers).
+    pub fn clear(&mut self) {
+        self.streams.clear();
+        self.ready_queue.clear();
+    }
 }
 
 pub struct FairQueue<S, K: Clone> {
